@@ -10,7 +10,7 @@ dirs=${@:-$(ls -d seeded/C*/)}
 for d in $dirs; do
   d=${d%/}; id=$(basename $d); prop=${id%%-*}
   if ! git -C /repo diff --quiet; then echo "/repo has uncommitted changes; refusing"; exit 9; fi
-  git -C /repo apply $d/patch.diff || { echo "$id patch-does-not-apply"; continue; }
+  git -C /repo apply /verif/$d/patch.diff || { echo "$id patch-does-not-apply"; continue; }
   s=$(date +%s)
   ./check $prop $tier > /tmp/seedall.$id.log 2>&1; rc=$?
   e=$(date +%s)
